@@ -42,7 +42,7 @@ func deepCastAt(val Value, typ ast.Type, span errors.Span, allowCasts bool, path
 			valInner := *valOption.Inner
 			typInner := typOption.Inner
 
-			innerCast, i := deepCastAt(valInner, typInner, span, allowCasts, path)
+			innerCast, i := deepCastAt(valInner, typInner, span, allowCasts, path+"<option-inner>")
 			if i != nil {
 				return nil, i
 			}
@@ -219,7 +219,7 @@ func deepCastAt(val Value, typ ast.Type, span errors.Span, allowCasts bool, path
 		}
 
 		// otherwise, the inner type must also match
-		return deepCastAt(*opt.Inner, optType, span, allowCasts, path)
+		return deepCastAt(*opt.Inner, optType, span, allowCasts, path+"<option-inner>")
 	case ClosureValueKind, FunctionValueKind, BuiltinFunctionValueKind:
 		panic("Unreachable, the analyzer prevents this")
 	case NullValueKind:
